@@ -2,7 +2,7 @@
    All functions named nary_* are slices of sc_notify_recursive_nary GENERATED from /repo (Gen/NotifyC01.v). *)
 From Coq Require Import ZArith List Bool.
 From Coq Require Import Permutation Lia.
-From ScV Require Import Base.CInt Gen.NotifyC01 C01.NaryArith C01.NaryDelivery C01.MergeModel C01.MergeProofs C01.MergeCorr Gen.Consts C18.MacroProofs C01.BinaryArith MPI.Prog C01.NotifyProgs C01.NotifyProgProofs C01.RecordOps C01.BinaryRound C01.NaryRound.
+From ScV Require Import Base.CInt Gen.NotifyC01 C01.NaryArith C01.NaryDelivery C01.MergeModel C01.MergeProofs C01.MergeCorr Gen.Consts C18.MacroProofs C01.BinaryArith MPI.Prog C01.NotifyProgs C01.NotifyProgProofs C01.RecordOps C01.BinaryRound C01.NaryRound C01.PexRound C01.NbxProofs.
 Import ListNotations.
 Local Open Scope Z_scope.
 
@@ -379,4 +379,54 @@ Proof.
   - intros me H. assert (E : me = 0 \/ me = 1 \/ me = 2 \/ me = 3 \/ me = 4) by lia.
     destruct E as [-> | [-> | [-> | [-> | ->]]]]; cbn [levels_ok]; repeat match goal with |- _ /\ _ => split end; try (unfold BIG; lia); try reflexivity; try exact I; apply Permutation_refl.
   - repeat split; vm_compute; reflexivity.
+Qed.
+
+(* ---- pex (one MPI_Alltoall): proved outright from the contract of the collective, about the co-simulated pex_core ---- *)
+Theorem C01_pex_program : forall (coll : Z -> list payload -> Z -> payload),
+  (forall (b : nat) cs r, (forall c, In c cs -> length c = (b * length cs)%nat) -> 0 <= r < Z.of_nat (length cs) ->
+     coll K_ALLTOALL cs r = flat_map (fun c => firstn b (skipn (Z.to_nat r * b) c)) cs) ->
+  forall P (R : Z -> list Z) sz0 me, 0 < P -> 0 <= me < P ->
+  run [coll K_ALLTOALL (map (fun s => flat_map (pex_slot (R s) None 0) (ranks P)) (ranks P)) me]
+      (pex_core P (R me) None sz0 (fun s g => Ret (result s g)))
+  = ([Coll K_ALLTOALL (-1) (flat_map (pex_slot (R me) None 0) (ranks P))], Some (result (transpose P R me) [])).
+Proof. exact pex_round_nopay. Qed.
+Print Assumptions C01_pex_program.
+
+(* ---- nbx (Issend / Iprobe / Ibarrier loop), about the co-simulated program nbx_core / nbx_loop ---------------------------
+   TERMINATION SKELETON: whatever the MPI library answers (any reply stream rs), a loop that returns has consumed replies
+   of the shape `exits`: polls with Testall = 0, then a Testall <> 0 (all own synchronous sends matched) followed by the
+   Ibarrier call, then polls with Test = 0, then a Test <> 0 (barrier complete) - or the model's loop bound was hit
+   (fuel_mark, an action the code never issues; the co-simulation would report it) *)
+Theorem C01_nbx_exit_skeleton : forall (g : list (Z * payload) -> payload) tag fuel rs barr acc out,
+  snd (run rs (nbx_loop fuel tag barr acc (fun got => Ret (g got)))) = Some out ->
+  exits barr rs \/ In fuel_mark (fst (run rs (nbx_loop fuel tag barr acc (fun got => Ret (g got))))).
+Proof. exact nbx_exit_skeleton. Qed.
+Print Assumptions C01_nbx_exit_skeleton.
+
+(* PATTERN INVERSION under the round abstraction: for every schedule of the loop (its1 / m1: polls before the barrier,
+   its2 / m2: after it; each poll finds nothing or one message) in which the messages found are those addressed to me,
+   each once, in the order `order`, the program returns them - ascending iff sorted - with pay s me behind sender s *)
+Theorem C01_nbx_round_semantics : forall P (R : Z -> list Z) (pay : Z -> Z -> payload) (its1 its2 : list (option (Z * payload)))
+    (m1 m2 : option (Z * payload)) me (sorted : bool) (order : list Z) (fuel : nat),
+  0 <= me < P -> Permutation order (transpose P R me) ->
+  received (its1 ++ [m1] ++ its2 ++ [m2]) = map (fun s => (s, pay s me)) order ->
+  (length its1 + length its2 + 1 < fuel)%nat ->
+  let final := if sorted then transpose P R me else order in
+  run (repeat [] (length (R me)) ++ replies1 its1 m1 ++ replies2 its2 m2)
+      (nbx_core fuel (R me) (Some (map (pay me) (R me))) sorted (fun s g => Ret (result s g)))
+  = (map (fun r => Send r c_SC_TAG_NOTIFY_NBX (pay me r)) (R me)
+       ++ acts1 c_SC_TAG_NOTIFY_NBX (length its1) ++ acts2 c_SC_TAG_NOTIFY_NBX (length its2),
+     Some (result final (map (fun s => pay s me) final))).
+Proof. exact nbx_round. Qed.
+Print Assumptions C01_nbx_round_semantics.
+
+Example C01_nbx_nonvacuous :
+  (* rank 1 of 3, listed by 0 and 2: first poll finds nothing, then the message of 2, sends matched, barrier, message of 0 *)
+  let R := fun f : Z => if f =? 0 then [1] else if f =? 2 then [1] else [] in
+  snd (run (replies1 [None] (Some (2, [7])) ++ replies2 [Some (0, [9])] None)
+           (nbx_core 10 (R 1) (Some []) true (fun s g => Ret (result s g)))) = Some [2; 0; 2; 9; 7] /\
+  exits false (replies1 [None] (Some (2, [7])) ++ replies2 [Some (0, [9])] None).
+Proof.
+  cbv zeta. split; [vm_compute; reflexivity|]. unfold replies1, replies2. cbn [flat_map app poll_reply].
+  apply ex_testall_more; [reflexivity|]. apply ex_testall_sent; [discriminate|]. apply ex_test_more; [reflexivity|]. apply ex_test_done. discriminate.
 Qed.
